@@ -10,22 +10,72 @@ Proof.
   destruct o; simpl; auto. now apply negb_true_iff in H1.
 Qed.
 
-Lemma run_rel : forall h d s, Rel d s -> Forall (fun o => wf_op o = true) h ->
-  fresh_adds h s = true -> Rel (run d h) (arun s h).
+(* ------------------------------------------------------------- catalog XMP *)
+Definition is_prall (o : op) : bool := match o with PRemove [] => true | _ => false end.
+
+(* either the XMP packet contributes no keyword, or the history never uses "remove all
+   properties" (which drops the packet and with it the keywords only it carries) *)
+Definition xmp_ok (d : doc) (h : list op) : Prop :=
+  xmp_text3 (d_ver d) (d_xmp d) = [] \/ forallb (fun o => negb (is_prall o)) h = true.
+
+Lemma step_xmp_cases : forall d o,
+  d_xmp (fst (step d o)) = d_xmp d \/ d_xmp (fst (step d o)) = fst (xmp_scrub (d_xmp d))
+  \/ d_xmp (fst (step d o)) = None.
 Proof.
-  induction h as [|o r IH]; intros d s R W F; [assumption|].
+  intros d o. unfold step. destruct (negb (readable d)); [now left|].
+  destruct o as [ks|ks|kvs|ks|v| |v| |new| |id data|ids];
+    repeat first
+      [ match goal with |- context [match d_xmp d with None => _ | Some _ => _ end] => destruct (d_xmp d) eqn:?X end
+      | match goal with |- context [match d_kw d with None => _ | Some _ => _ end] => destruct (d_kw d) eqn:?K end
+      | match goal with |- context [match ?x with [] => _ | _ :: _ => _ end] => destruct x end
+      | match goal with |- context [if ?c then _ else _] => destruct c eqn:?C end ];
+    simpl; auto; try (left; assumption); try congruence.
+Qed.
+
+Lemma step_clean : forall d o, xmp_text3 17 (d_xmp d) = [] -> xmp_text3 17 (d_xmp (fst (step d o))) = [].
+Proof.
+  intros d o H. destruct (step_xmp_cases d o) as [E|[E|E]]; rewrite E; [assumption|apply xmp_text3_scrub|reflexivity].
+Qed.
+
+Lemma xmp_ok_step : forall d s o h, Rel d s -> xmp_ok d (o :: h) ->
+  safe_op d o /\ (Rel (fst (step d o)) (astep s o) -> xmp_ok (fst (step d o)) h).
+Proof.
+  intros d s o h R [C|N].
+  - split.
+    + destruct o as [ | | |[|k ks]| | | | | | | | ]; simpl; auto.
+    + intros R'. left. destruct (r_ver _ _ R) as [V _]. destruct (r_ver _ _ R') as [V' _].
+      rewrite V in C. rewrite V'. now apply step_clean.
+  - simpl in N. apply andb_true_iff in N as [No Nh]. split.
+    + destruct o as [ | | |[|k ks]| | | | | | | | ]; simpl; auto. discriminate.
+    + intros _. now right.
+Qed.
+
+Lemma run_rel : forall h d s, Rel d s -> Forall (fun o => wf_op o = true) h ->
+  fresh_adds h s = true -> xmp_ok d h -> Rel (run d h) (arun s h).
+Proof.
+  induction h as [|o r IH]; intros d s R W F X; [assumption|].
   inversion W as [|? ? Wo Wr]; subst. apply fresh_adds_cons in F as [Fo Fr].
-  simpl. apply IH; [|assumption|assumption]. now apply step_rel.
+  destruct (xmp_ok_step _ _ _ _ R X) as [SF XN].
+  assert (R' : Rel (fst (step d o)) (astep s o)) by now apply step_rel.
+  simpl. apply IH; auto.
 Qed.
 
 Lemma history_refines : forall h d s, Rel d s -> Forall (fun o => wf_op o = true) h ->
-  fresh_adds h s = true -> observe (run d h) = Some (arun s h).
-Proof. intros h d s R W F. eapply observe_rel. eapply run_rel; eauto. Qed.
+  fresh_adds h s = true -> xmp_ok d h -> observe (run d h) = Some (arun s h).
+Proof. intros h d s R W F X. eapply observe_rel. eapply run_rel; eauto. Qed.
 
 Lemma history_from_empty : forall h, Forall (fun o => wf_op o = true) h ->
   fresh_adds h (empty_store 17) = true ->
   observe (run (empty_doc 17) h) = Some (arun (empty_store 17) h).
-Proof. intros h W F. eapply history_refines; eauto. apply rel_empty. Qed.
+Proof. intros h W F. eapply history_refines; eauto; [apply rel_empty|now left]. Qed.
+
+(* from a document that carries keywords in its Info dictionary and in its catalog XMP
+   packet: the store starts with their union *)
+Lemma history_from_xmp : forall kw x h, let d := init_doc 17 true kw x in
+  Forall (fun k => wfk k = true) (kw_read d) ->
+  Forall (fun o => wf_op o = true) h -> fresh_adds h (init_store d) = true -> xmp_ok d h ->
+  observe (run d h) = Some (arun (init_store d) h).
+Proof. intros kw x h d Wk W F X. eapply history_refines; eauto. now apply rel_init. Qed.
 
 (* ------------------------------------------------------------- attachments *)
 Definition att_op (o : op) : bool := match o with AAdd _ _ | ARemove _ => true | _ => false end.
@@ -73,12 +123,14 @@ Proof. intros d s id R. unfold extract. now rewrite (readable_rel _ _ R), (r_att
 Lemma extract_returns_added : forall d s id data h,
   Rel d s -> m_mem id (s_att s) = false ->
   Forall (fun o => wf_op o = true) h -> forallb (fun o => negb (att_op o)) h = true ->
+  xmp_ok d (AAdd id data :: h) ->
   extract (run d (AAdd id data :: h)) id = Some data.
 Proof.
-  intros d s id data h R Fr W NA.
+  intros d s id data h R Fr W NA X.
   assert (R' : Rel (run d (AAdd id data :: h)) (arun s (AAdd id data :: h))).
-  { apply run_rel; [assumption|constructor; [reflexivity|assumption]|].
-    simpl. rewrite Fr. simpl. now apply fresh_adds_no_att. }
+  { apply run_rel; [assumption|constructor; [reflexivity|assumption]| |].
+    - simpl. rewrite Fr. simpl. now apply fresh_adds_no_att.
+    - assumption. }
   rewrite (extract_rel _ _ _ R'). simpl. unfold arun in *. fold (arun (astep s (AAdd id data)) h).
   rewrite arun_att_unchanged by assumption.
   destruct s; simpl. apply m_get_set_same.
@@ -148,4 +200,27 @@ Lemma repaired_regressions :
      = Some (Store 17 [] [] None None None [])
   /\ observe (run (empty_doc 17) [VSet [None;None;None;None;None;None;Some 4;None;None;None;None;None;None;None;None;None]])
      = Some (Store 17 [] [] None None (Some [None;None;None;None;None;None;Some 4;None;None;None;None;None;None;None;None;None]) []).
+Proof. vm_compute. repeat split; reflexivity. Qed.
+
+(* by-name removal of a keyword that the catalog XMP packet carries: it must stay removed *)
+Lemma xmp_remove_by_name :
+  let d := init_doc 17 true (Some [105; 49]) (Some (Some [120; 49; 59; 32; 120; 50])) in  (* Info "i1", XMP "x1; x2" *)
+  kw_read d = [[105; 49]; [120; 49]; [120; 50]]
+  /\ observe (run d [KRemove [[120; 49]]]) = Some (Store 17 [[105; 49]; [120; 50]] [] None None None [])
+  /\ d_xmp (run d [KRemove [[120; 49]]]) = Some None.
+Proof. vm_compute. repeat split; reflexivity. Qed.
+
+(* the XMP hypothesis cannot be dropped: "remove all properties" drops the packet *)
+Lemma prall_drops_xmp_keywords :
+  let d := init_doc 17 true None (Some (Some [120; 49])) in
+  kw_read d = [[120; 49]]
+  /\ observe (run d [PRemove []]) = Some (Store 17 [] [] None None None []).
+Proof. vm_compute. split; reflexivity. Qed.
+
+(* without an Info dictionary KeywordsRemove gives up although the keyword is listed *)
+Lemma no_info_remove_refused :
+  let d := init_doc 17 false None (Some (Some [120; 49])) in
+  kw_read d = [[120; 49]]
+  /\ last_ok d [KRemove [[120; 49]]] = false
+  /\ observe (run d [KRemove [[120; 49]]]) = Some (Store 17 [[120; 49]] [] None None None []).
 Proof. vm_compute. repeat split; reflexivity. Qed.
